@@ -813,9 +813,10 @@ impl CoreApi for Enforcer {
     #[cfg(feature = "watcher")]
     #[inline]
     fn enable_auto_notify_watcher(&mut self, auto_notify_watcher: bool) {
-        if !auto_notify_watcher {
-            self.off(Event::PolicyChange);
-        } else {
+        // drop any callback registered earlier (one is registered at
+        // construction): enabling twice must not notify twice per change
+        self.off(Event::PolicyChange);
+        if auto_notify_watcher {
             self.on(Event::PolicyChange, notify_logger_and_watcher);
         }
 
